@@ -5,7 +5,7 @@ Import ListNotations.
 Open Scope Z_scope.
 
 Definition kill_res (w : world) (b : bo) (real : Z) : res :=
-  if killed_sig w b =? 0 then ROk real else RKilled real (killed_sig w b).
+  if kill_eff w b =? 0 then ROk real else RKilled real (kill_eff w b).
 
 (* a back-off either leaves the world alone (error / bad) or performs exactly one accounted sleep *)
 Lemma do_backoff_cases e w i c maxms errid s w' r :
